@@ -17,6 +17,12 @@ Proof.
     cbn [c_parsed length] in *. destruct IH as [A1 A2]; [lia|]. rewrite A1, <- app_assoc. cbn. auto.
 Qed.
 
+Lemma pop_all_files : forall fuel c acc, c_files (fst (pop_all fuel c acc)) = c_files c.
+Proof.
+  induction fuel as [|f IH]; intros c acc; cbn [pop_all]; [reflexivity|].
+  unfold pop_parsed_request. destruct (c_parsed c) as [|r q]; [reflexivity|]. rewrite IH. reflexivity.
+Qed.
+
 Section SR.
 Variable BUF : nat.
 Hypothesis BUF_min : (2 <= BUF)%nat.
@@ -38,7 +44,8 @@ Theorem server_read_exact w toks fd kk w' ys x ph :
   | RMore ph' carry outs =>
       CInv (sc_conn y) ph' /\ c_win (sc_conn y) = carry /\
       unsent (sc_conn y) = unsent c ++ flat_map serialize (conts_of outs) /\
-      ys = map (fun r => (fd, sc_gid x, r)) (c_parsed c ++ reqs_of outs (c_files c))
+      ys = map (fun r => (fd, sc_gid x, r)) (c_parsed c ++ reqs_of outs (c_files c)) /\
+      c_parsed (sc_conn y) = [] /\ c_files (sc_conn y) = files_after outs (c_files c) /\ c_pmax (sc_conn y) = c_pmax c
   | RErr outs e =>
       CInv (sc_conn y) PLine /\ c_win (sc_conn y) = [] /\
       unsent (sc_conn y) = unsent c ++ flat_map serialize (conts_of outs ++ [bad_request_response e]) /\
@@ -72,8 +79,9 @@ Proof.
   destruct (runT BUF (c_pmax (sc_conn x)) ph (c_win (sc_conn x) ++ b :: bs) []) as [ph' carry outs|outs e|].
   - destruct D as (c' & T & I' & Hw & P). rewrite T. rewrite AF in P.
     destruct (pop_all (S (length (c_parsed c'))) c' []) as [c2 reqs] eqn:Pp.
-    pose proof (pop_all_all (S (length (c_parsed c'))) c' [] ltac:(lia)) as [Q1 _]. rewrite Pp in Q1. cbn [snd app] in Q1.
-    pose proof (pop_all_write_side (S (length (c_parsed c'))) c' []) as (HA & HB & PS & _). rewrite Pp in HA, HB, PS. cbn [fst] in *.
+    pose proof (pop_all_all (S (length (c_parsed c'))) c' [] ltac:(lia)) as [Q1 Q2]. rewrite Pp in Q1, Q2. cbn [snd fst app] in Q1, Q2.
+    pose proof (pop_all_files (S (length (c_parsed c'))) c' []) as QF. rewrite Pp in QF. cbn [fst] in QF.
+    pose proof (pop_all_write_side (S (length (c_parsed c'))) c' []) as (HA & HB & PS & HPm). rewrite Pp in HA, HB, PS, HPm. cbn [fst] in *.
     destruct (U32_LIMIT <=? _); [discriminate|]. intros H; inversion H; subst w' ys; clear H.
     match goal with |- context [set_conn w fd ?yy] => set (y' := yy) end.
     assert (Ey : sc_conn y' = c2 /\ sc_gid y' = sc_gid x /\ sc_client y' = sc_client x).
@@ -85,7 +93,8 @@ Proof.
     split; [eapply CInv_parser_same; eauto|]. split; [destruct PS as (_ & -> & _); exact Hw|].
     split.
     + apply unsent_grow; [rewrite HA; apply (post_rq _ _ _ P)|rewrite HB; apply (post_rbuf _ _ _ P)].
-    + rewrite Q1, (post_parsed _ _ _ P). reflexivity.
+    + split; [rewrite Q1, (post_parsed _ _ _ P); reflexivity|]. split; [exact Q2|].
+      split; [rewrite QF; apply (post_files _ _ _ P)|rewrite HPm; apply (post_pmax _ _ _ P)].
   - destruct D as (c1 & T & P). rewrite T. rewrite AF in P.
     destruct (U32_LIMIT <=? _); [discriminate|]. intros H; inversion H; subst w' ys; clear H.
     match goal with |- context [set_conn w fd ?yy] => set (y' := yy) end.
